@@ -171,6 +171,7 @@ type generated struct {
 	byFn    map[string]*VC
 	lemmas  []*Oblig
 	genErrs []string
+	sweepErrs []string
 }
 
 // servesProp reports whether a contract mentions the property.
@@ -232,8 +233,36 @@ func (w *World) generate(props []string) *generated {
 		g.vcs = append(g.vcs, vc)
 		g.byFn[k] = vc
 	}
+	// C20: zero-annotation safety sweep over the functions without contract
+	if hasTag(props, "C20") {
+		var sweep []string
+		for k, fn := range w.fnIndex {
+			if fn.Blocks == nil || w.contracts[k] != nil || g.byFn[k] != nil {
+				continue
+			}
+			if !sweepScope(k) || fn.Synthetic != "" || strings.Contains(k, ".init") {
+				continue
+			}
+			sweep = append(sweep, k)
+		}
+		sort.Strings(sweep)
+		for _, k := range sweep {
+			vc := w.verifyFunction(w.fnIndex[k], nil)
+			if vc.failed != nil {
+				g.sweepErrs = append(g.sweepErrs, vc.failed.Error())
+				continue
+			}
+			g.vcs = append(g.vcs, vc)
+			g.byFn[k] = vc
+		}
+	}
 	g.lemmas = w.lemmaObligations()
 	return g
+}
+
+// sweepScope: the packages covered by the zero-annotation safety sweep.
+func sweepScope(key string) bool {
+	return strings.HasPrefix(key, "bsonkit.") || strings.HasPrefix(key, "mongokit.")
 }
 
 func (w *World) obligationsFor(p string, g *generated) []*Oblig {
@@ -241,6 +270,9 @@ func (w *World) obligationsFor(p string, g *generated) []*Oblig {
 	for _, vc := range g.vcs {
 		for _, o := range vc.obligs {
 			if o.Cover {
+				if vc.con == nil {
+					continue
+				}
 				// the cover of a function counts for the properties its contract serves
 				if servesProp(vc.con, []string{p}) && p != "C20" || p == "C20" && hasTag(vc.con.Tags, "C20") {
 					out = append(out, o)
@@ -343,7 +375,18 @@ func (w *World) checkProperty(p, tier string, seed int, g *generated, reg *Regis
 	replayDir := filepath.Join(verif, "replays")
 	os.MkdirAll(replayDir, 0o755)
 	obs := w.obligationsFor(p, g)
-	res := runAll(obs, outDir, timeout, 16, nil, false)
+	knownNames := map[string]bool{}
+	for _, k := range kf.Findings {
+		for _, n := range k.Obligations {
+			knownNames[n] = true
+		}
+	}
+	// unregistered obligations only get the short first stage; the race with the
+	// full timeout is spent on registered obligations and known findings
+	res := runAllSel(obs, outDir, timeout, 16, func(o *Oblig) bool {
+		_, isReg := reg.Obligations[o.Name]
+		return isReg || knownNames[o.Name] || o.Kind == "lemma"
+	})
 
 	byName := map[string]*checkOutcome{}
 	var outcomes []*checkOutcome
